@@ -163,7 +163,7 @@ def confirm_lex_failure(P, name, d, f, r):
 # ----------------------------------------------------------------------------- the lexing family
 def lex_family(prop, tier, seed, *, relevant, select, name, cfgs, N, starts, budget, profiles=('dev',),
                partial=False, level='translation_validation', extra_assumptions=(), long_defs=(), long_N=17,
-               rule=None, post=None):
+               rule=None, post=None, evidence_hook=None, acceptance=None):
     ev = report.Evidence(prop, tier, seed, level)
     name = f'{name}-{prop}'      # own crate dir per check: checks may run concurrently
     defs = select(corpus_defs.all_defs())
@@ -172,6 +172,10 @@ def lex_family(prop, tier, seed, *, relevant, select, name, cfgs, N, starts, bud
     if P.no_ref:
         log(f'ENGINE: no reference tables for {[d.id for d in P.no_ref]}')
         rc = 2
+    acc_cov = None
+    if acceptance is not None:
+        arc, acc_cov = acceptance(prop, P, defs, ev)
+        rc = max(rc, arc)
     payloads = []
     for d in P.usable:
         for (c, prof), mir in P.progs.items():
@@ -288,7 +292,13 @@ def lex_family(prop, tier, seed, *, relevant, select, name, cfgs, N, starts, bud
             f'(decided by C03/C04/C08/C11 checks)')
     if tot['leaves'] == 0:
         rc = max(rc, 2)
-    ev.write()
+    if acc_cov is not None:
+        ev.coverage['acceptance'] = acc_cov
+    if evidence_hook is not None:
+        evidence_hook['coverage'] = ev.coverage
+        evidence_hook['ev'] = ev
+    else:
+        ev.write()
     log(f'{prop} {tier}: {len(P.usable)} definitions x {len(P.progs)} configurations, {tot["leaves"]} leaves, '
         f'{tot["queries"]} queries, solver {tot["solver_s"]:.1f}s, explore {explore_s}s, rc={rc}')
     return rc
@@ -335,15 +345,25 @@ def c02(tier, seed):
     return lex_family('C02', tier, seed, relevant={'C02'}, select=sel_for(tier, 'unicode'), name='lex', **tp)
 
 
+def with_rejects(sel, *tags):
+    def f(defs):
+        return sel(defs) + [d for d in defs if d.expect == 'reject' and any(t in d.tags for t in tags)]
+    return f
+
+
 def c03(tier, seed):
+    from .accept_checks import acceptance_empty
     tp = tier_params(tier)
-    return lex_family('C03', tier, seed, relevant={'C03'}, select=sel_for(tier), name='lex', **tp)
+    return lex_family('C03', tier, seed, relevant={'C03'}, select=with_rejects(sel_for(tier), 'empty'), name='lex',
+                      acceptance=acceptance_empty, **tp)
 
 
 def c04(tier, seed):
     tp = tier_params(tier)
+    from .accept_checks import acceptance_utf8
     return lex_family('C04', tier, seed, relevant={'C04'},
-                      select=lambda ds: [d for d in sel_for(tier, 'unicode')(ds) if d.utf8], name='lex', **tp)
+                      select=with_rejects(lambda ds: [d for d in sel_for(tier, 'unicode')(ds) if d.utf8], 'nonutf8'), name='lex',
+                      acceptance=acceptance_utf8, **tp)
 
 
 def c05(tier, seed):
@@ -633,3 +653,22 @@ def c12(tier, seed):
 
 
 REGISTRY.update({'C06': c06, 'C12': c12, 'C13': c13})
+
+
+def c10(tier, seed):
+    tp = tier_params(tier)
+    thorough = tier != 'quick'
+    fam = corpus_defs.literal_family(seed, thorough)
+    return lex_family('C10', tier, seed, relevant={'C01', 'C02'}, select=lambda ds: fam, name='lex', **tp)
+
+
+def c11(tier, seed):
+    from .accept_checks import acceptance_subpattern
+    tp = tier_params(tier)
+    fam = corpus_defs.subpattern_family() + [d for d in corpus_defs.core() + corpus_defs.reject_core() if 'subpat' in d.tags]
+    return lex_family('C11', tier, seed, relevant={'C01', 'C02'}, select=lambda ds: fam, name='lex',
+                      acceptance=acceptance_subpattern, **tp)
+
+
+from .accept_checks import c08, c09, c18  # noqa: E402
+REGISTRY.update({'C08': c08, 'C09': c09, 'C10': c10, 'C11': c11, 'C18': c18})
